@@ -91,3 +91,25 @@ def with_atom(atom: Sequence[str], max_n: int = 4, nlabels: int = 2) -> Iterator
 def space(max_n: int, nlabels: int = 2, plain: Sequence[str] = PLAIN_FULL, multi: bool = False) -> Iterator[str]:
     for n in range(1, max_n + 1):
         yield from programs(n, nlabels, plain, multi)
+
+
+DEAD_TOKENS = ("int 1", "bz La", "bz Lb", "bnz La", "bnz Lb", "b La", "b Lb", "callsub La", "callsub Lb", "retsub", "return", "err",
+               "switch La Lb", "match La Lb")
+DEAD_HEADS = ("callsub La\nreturn", "b La", "int 1\nreturn", "callsub Lb\nint 1\nreturn")
+DEAD_TAILS = ("La:\nLb:\nretsub", "La:\nint 1\nLb:\nreturn", "La:\nretsub\nLb:\nretsub", "La:\nint 1\nbnz Lb\nretsub\nLb:\nretsub")
+
+
+def dead_code(all_pairs: bool = True, version: int = 8) -> Iterator[str]:
+    """G1D - unreachable segments between live code: live head (ends in a terminator), one or two
+    dead instructions (every control instruction, jumping into the live tail), live tail defining
+    both labels (as subroutine body or as main code, depending on the head)."""
+    header = f"#pragma version {version}\n"
+    segs: List[str] = list(DEAD_TOKENS)
+    for a in DEAD_TOKENS:
+        for b in DEAD_TOKENS:
+            if all_pairs or a == "int 1":
+                segs.append(a + "\n" + b)
+    for h in DEAD_HEADS:
+        for t in DEAD_TAILS:
+            for s in segs:
+                yield header + h + "\n" + s + "\n" + t + "\n"
